@@ -332,3 +332,58 @@ func verifC12Steps(steps, maxN int) {
 func VerifHarness_C12_Steps_2x1() { verifC12Steps(2, 1) }
 func VerifHarness_C12_Steps_2x2() { verifC12Steps(2, 2) }
 func VerifHarness_C12_Steps_3x1() { verifC12Steps(3, 1) }
+
+// C13-O2: evaluation follows the structure of the expression.  A tree of two
+// arithmetic operators over the operands 10, 3, 2 (values for which every
+// regrouping changes the result), grouped to the left or to the right, with
+// the second and third operand written as vector(n) or as a literal, is built
+// by the real build() and evaluated; the value must be the one obtained by
+// evaluating the tree bottom-up.
+func VerifHarness_C13_EvalChain() {
+	ops := []logql.BinOp{logql.OpAdd, logql.OpSub, logql.OpMul, logql.OpDiv, logql.OpMod, logql.OpPow}
+	op1 := ops[vsymChoice("op", len(ops))]
+	op2 := ops[vsymChoice("op", len(ops))]
+	operand := func(v float64, lit bool) logql.Expr {
+		if lit {
+			return &logql.LiteralExpr{Value: v}
+		}
+		return &logql.VectorExpr{Value: v}
+	}
+	bLit, cLit := vsymBool("secondIsLiteral"), vsymBool("thirdIsLiteral")
+	a, b, c := operand(10, false), operand(3, bLit), operand(2, cLit)
+	paren := vsymBool("parenthesised")
+	wrap := func(e logql.Expr) logql.Expr {
+		if paren {
+			return &logql.ParenExpr{X: e}
+		}
+		return e
+	}
+	var expr logql.Expr
+	var want float64
+	leftNested := vsymBool("leftNested")
+	if leftNested {
+		expr = &logql.BinOpExpr{Left: wrap(&logql.BinOpExpr{Left: a, Op: op1, Right: b}), Op: op2, Right: c}
+		inner, _, _ := verifRefBinOp(op1, 10, 3)
+		want, _, _ = verifRefBinOp(op2, inner, 2)
+	} else {
+		if bLit && cLit {
+			// a constant subtree is folded by the parser (ReduceBinOp), not by build
+			vsymAssume(false)
+		}
+		expr = &logql.BinOpExpr{Left: a, Op: op1, Right: wrap(&logql.BinOpExpr{Left: b, Op: op2, Right: c})}
+		inner, _, _ := verifRefBinOp(op2, 3, 2)
+		want, _, _ = verifRefBinOp(op1, 10, inner)
+	}
+	t0 := time.Unix(1700000000, 0)
+	it, err := build(expr, nil, EvalParams{Start: t0, End: t0.Add(time.Second), Step: time.Second})
+	vsymAssert(err == nil, "a chain of arithmetic operators over vectors and literals builds")
+	n := 0
+	var st Step
+	for it.Next(&st) {
+		vsymAssert(len(st.Samples) == 1, "arithmetic over vector(n) yields one series")
+		vsymAssert(vsymSameFloat(st.Samples[0].Data, want), "the value is the one the structure of the expression denotes (parentheses and grouping are kept)")
+		n++
+	}
+	vsymAssert(n == 2 && it.Err() == nil, "one value per step")
+	vsymReach("C13_eval_chain")
+}
